@@ -51,7 +51,7 @@ RICH_FNS = [
     ("echo", "echo"), ("lower", "lower"), ("len", "len"), ("echo_int", "echo_int"), ("echo_ip", "echo_ip"),
     ("nonempty", "nonempty"), ("show", "show"), ("lit_only", "lit_only"), ("echo_ab", "echo_ab"),
     ("echo_mb", "echo_mb"), ("echo_b", "echo_b"), ("count", "count"), ("join2", "join2"), ("concat", "concat"),
-    ("tally", "tally"), ("tally0", "tally0"),
+    ("tally", "tally"), ("tally0", "tally0"), ("tagb", "tagb"),
 ]
 
 # library signatures: params [(kind, ty)], opts [(kind, default value)], ret (None: type of first arg)
@@ -67,6 +67,7 @@ LIB = {
     "echo_ab": ([("field", arr("bool"))], [], arr("bool")),
     "echo_mb": ([("field", mp("bool"))], [], mp("bool")),
     "echo_b": ([("field", "bool")], [], "bool"),
+    "tagb": ([("field", "bool")], [], "bytes"),
     "count": ([("field", arr("bytes"))], [], "int"),
     "join2": ([("field", "bytes"), ("both", "bytes")], [], "bytes"),
     "boom": ([("field", "bytes")], [], "bytes"),
